@@ -304,9 +304,19 @@ void run_case(Choices& c, Report& r)
   {
     if (k > 0)
     {
-      size_t step = c.weighted({4, 3, 3, 3, 2, 2, 2, 3, 2, 2, 6});
+      size_t step = c.weighted({4, 3, 3, 3, 2, 2, 2, 3, 2, 2, 6, 4, 2});
       switch (step)
       {
+      case 11:
+      {
+        // "the same job, half a day / a day / a day and a half later, a little earlier or later": revisits a minute of the
+        // day after one or several cache rebuilds
+        static int64_t const off[] = {-3600, -1800, -60, -1, 1, 60, 1800, 3600};
+        t_s += static_cast<int64_t>(1 + c.pick(3)) * 43200 + off[c.pick(8)];
+        r.label("step_same_time_of_day_later");
+        break;
+      }
+      case 12: t_s += 1800; break;
       case 0: t_s += 1; break;
       case 1: t_s += 0; break;
       case 2: t_s += 59; break;
